@@ -89,13 +89,26 @@ fn alphabet(mode: Mode, w: u16, h: u16, reduced: bool) -> Vec<Letter> {
     let types: &[u8] = if mode == Mode::Sorenson { &[0, 1, 2] } else { &[0, 1] };
     for &t in types {
         for pei in 0..8usize {
-            for content in 0..2usize {
-                if reduced && mode != Mode::Sorenson && pei % 2 == 1 && content == 1 {
+            for content in 0..3usize {
+                if reduced && mode != Mode::Sorenson && pei % 2 == 1 && content >= 1 {
+                    continue;
+                }
+                // content 2 = content 0 with MCBPC stuffing codewords in the macroblock layer; only on
+                // two PEI counts to keep the alphabet small
+                if content == 2 && pei % 4 != 1 {
                     continue;
                 }
                 let tr = (t as usize * 16 + pei * 2 + content) as u8;
                 let hd = hdr(mode, w, h, t, tr, pei, (pei % 2) as u8);
-                let pic = Pic { mbs: body(&hd, content, pei), hdr: hd };
+                let mut mbs = body(&hd, content % 2, pei);
+                if content == 2 {
+                    mbs.insert(mbs.len() - 1, Mb::Stuffing);
+                    mbs.insert(0, Mb::Stuffing);
+                    if mbs.len() > 4 {
+                        mbs.insert(2, Mb::Stuffing);
+                    }
+                }
+                let pic = Pic { mbs, hdr: hd };
                 let bw = encode(&pic);
                 let pad = (8 - bw.nbits % 8) % 8;
                 v.push(Letter { name: format!("{}{}x{} pei{} c{} pad{}", ["I", "P", "D"][t as usize], w, h, pei, content, pad), bytes: bw.bytes, pad, pic });
@@ -237,7 +250,7 @@ pub fn run(tier: Tier) -> Report {
         rep.violation("C15/machinery-padding-coverage", format!("picture alphabet does not realise every padding length 0..7: {pads:?}"), json!({"kind": "machinery"}));
     }
     rep.set_rule(&format!(
-        "all sequences of 1..={maxlen} pictures from an alphabet of type {{I,P,D}} x 8 PEI counts (every padding length 0..7) x 2 bodies (last macroblock coded with AC data / not coded) per size, from a fresh decoder and after an I picture, in Sorenson and standard mode: decoder A reads the concatenation from one reader, decoder B gets one reader per picture; A, B and the reference decoder must agree after every call and A's reader must end within 8 bits of the end; non-trivial = sequences of two or more pictures"
+        "all sequences of 1..={maxlen} pictures from an alphabet of type {{I,P,D}} x 8 PEI counts (every padding length 0..7) x bodies (last macroblock coded with AC data / not coded / with MCBPC stuffing codewords) per size, from a fresh decoder and after an I picture, in Sorenson and standard mode: decoder A reads the concatenation from one reader, decoder B gets one reader per picture; A, B and the reference decoder must agree after every call and A's reader must end within 8 bits of the end; non-trivial = sequences of two or more pictures"
     ));
     rep.assume("pictures of one sequence share a size (prediction across sizes is outside the valid-stream premise)");
     rep
